@@ -108,36 +108,35 @@ func lemma_C15_receiver(code, id, subtype, r0, r1 uint8, rand, tag, key []byte) 
 // KNOWN FINDING (recorded in known_findings.json): attributes are kept in a map and
 // re-encoded in ascending type order, so for a packet an independent encoder sent with
 // the attributes in another order (here AT_MAC before AT_RAND) the receiver computes
-// the code over octets that are not the ones transmitted.
+// the code over octets that are not the ones transmitted.  The code is the HMAC over the
+// re-encoding of the decoded packet with the AT_MAC value zeroed (lemma_C15_sender), so
+// the assertion compares that re-encoding with the transmitted octets directly - which
+// gives a concrete packet instead of an undecided HMAC equation.
 //
 //verif:bounded packets with AT_MAC, AT_RAND in descending order
-//verif:timeout 8000
-//verif:bytes
-//verif:maxlen key=1000000
 //verif:unroll (*eap.EapAkaPrime).Unmarshal#loop1 4 assert
 //verif:unroll (*eap.EapAkaPrime).Marshal#loop1 3 assert
 //verif:unroll (*eap.EapAkaPrime).getAttrsKeys#loop1 3 assert
-func lemma_C15_receiver_other_order(code, id, subtype uint8, rand, tag, key []byte) {
+func lemma_C15_receiver_other_order(code, id, subtype uint8, rand, tag []byte) {
 	verifAssume(len(rand) == 16 && len(tag) == 16)
-	k0 := append([]byte{}, key...)
 	n := 8 + 20 + 20
 	w := make([]byte, n)
 	w[0], w[1], w[2], w[3] = code, id, byte(n>>8), byte(n)
 	w[4], w[5], w[6], w[7] = 50, subtype, 0, 0
 	w[8], w[9], w[10], w[11] = 11, 5, 0, 0
+	copy(w[12:28], tag)
 	w[28], w[29], w[30], w[31] = 1, 5, 0, 0
 	copy(w[32:], rand)
-	w0 := append([]byte{}, w...) // the transmitted octets with the AT_MAC value zeroed
-	copy(w[12:28], tag)
 	y := new(EAP)
 	if y.Unmarshal(w) != nil {
 		return
 	}
-	mac, err := y.CalcEapAkaPrimeAtMAC(key)
+	w2, err := y.Marshal() // the octets CalcEapAkaPrimeAtMAC feeds to the HMAC (AT_MAC value zeroed first)
 	if err != nil {
 		return
 	}
-	verifAssert(verifBytesEq(mac, verifRefMac128(k0, w0)), "C15/receiver-code-covers-the-transmitted-octets-in-their-transmitted-order")
+	j := verifAny()
+	verifAssert(len(w2) == len(w) && (!(0 <= j && j < len(w)) || w2[j] == w[j]), "C15/receiver-code-covers-the-transmitted-octets-in-their-transmitted-order")
 }
 
 // initMAC: whatever AT_MAC held, it holds 16 zero octets afterwards; and the code is
